@@ -15,6 +15,7 @@ import json
 import math
 import random
 import re
+import decimal
 from decimal import Decimal
 from typing import Any
 from typing import Callable
@@ -822,6 +823,8 @@ class NumSite:
 
 NUM_SITES = [
     NumSite("output", "<<{{ «N» }}>>"),
+    NumSite("output-json", "<<{{ «N» | json }}>>"),
+    NumSite("assign-json", "{% assign v = «N» %}<<{{ v | json: 1 }}>>"),
     NumSite("assign", "{% assign v = «N» %}<<{{ v }}>>"),
     NumSite("echo", "<<{% echo «N» %}>>"),
     NumSite("filter-arg", "<<{{ nosuch | default: «N» }}>>"),
@@ -841,6 +844,10 @@ NUM_SITES = [
     NumSite("if-eq-right", "{% if v == «N» %}" + IFE, "T"),
     NumSite("if-eq-control", "{% if «N» == v %}" + IFE, "F"),
     NumSite("if-le-ge", "{% if «N» <= v and «N» >= v %}" + IFE, "T"),
+    NumSite("if-le", "{% if «N» <= v %}" + IFE, "T"),
+    NumSite("if-lt-control", "{% if «N» < v %}" + IFE, "F-same"),
+    NumSite("if-ge-control", "{% if «N» >= v %}" + IFE, "F"),
+    NumSite("case-subject", "{% case «N» %}{% when v %}T{% else %}F{% endcase %}", "T"),
     NumSite("case-when", "{% case v %}{% when «N» %}T{% else %}F{% endcase %}", "T"),
     NumSite("case-when-control", "{% case v %}{% when «N» %}T{% else %}F{% endcase %}", "F"),
     NumSite("ternary-cond", "{{ 'T' if «N» == v else 'F' }}", "T"),
@@ -884,7 +891,8 @@ def eval_number(h: Harness, site: NumSite, text: str, *, use_async: bool = False
         m["«N0»"] = str(exp - 1)
     src = "".join(m.get(p, p) for p in _NPH.split(site.src))
     data: dict[str, Any] = {"g": 1}
-    if site.mode == "T":
+    want = site.mode[0]
+    if site.mode in ("T", "F-same"):
         data["v"] = exp
     elif site.mode == "F":
         data["v"] = neighbour
@@ -893,8 +901,8 @@ def eval_number(h: Harness, site: NumSite, text: str, *, use_async: bool = False
     if o.kind != "ok":
         return o, info
     out = o.out
-    if site.mode in ("T", "F"):
-        if out != site.mode:
+    if site.mode != "print":
+        if out != want:
             return Outcome("wrong", observed=out, out=out), info
         return o, info
     if not (out.startswith("<<") and out.endswith(">>")):
@@ -925,19 +933,27 @@ def number_key(h: Harness, site: NumSite, text: str, o: Outcome, info: dict[str,
         exp = info["expected"]
         what = "wrong-value"
         if cls == "int":
-            # counterfactual: does the engine treat the literal exactly as it treats the
-            # integer obtained by rounding the text to a double?
+            # counterfactuals: does the engine treat the literal exactly as it treats the
+            # integer obtained by rounding the text (a) to a double, (b) to the 28
+            # significant digits of the default decimal context?
+            cands: list[tuple[str, Any]] = []
             try:
-                via = int(float(text))
+                cands.append(("through-float", int(float(text))))
             except (OverflowError, ValueError):
-                via = None
-            if via is not None and via != exp:
-                o2, _ = eval_number(h, site, text, use_async=use_async, written=str(via))
-                if o2.out == o.out:
-                    what = "through-float"
+                pass
+            cands.append(("through-decimal-context",
+                          int(decimal.Context(prec=28).create_decimal(text))))
+            for name, via in cands:
+                if via != exp:
+                    o2, _ = eval_number(h, site, text, use_async=use_async, written=str(via))
+                    if o2.out == o.out:
+                        what = name
+                        break
         elif site.mode == "print" and isinstance(o.observed, float):
             if o.observed == float(int(exp)):
                 what = "truncated"
+            elif o.observed == float(decimal.Context(prec=28).create_decimal(text)):
+                what = "through-decimal-context"
         return f"{lit}:{what}"
     if o.kind == "rejected":
         return f"{lit}:rejected@{site.name}"
@@ -1030,17 +1046,193 @@ def float_texts(rng: random.Random, n: int) -> list[str]:
     return out
 
 
+EXP_MARKS = ("e", "E", "e+", "E+")
+ROUNDING_POSITIONS = (15, 16, 17, 18, 27, 28, 29, 30, 34, 38)  # double, decimal28, decimal34
+
+
+def _mantissas(rng: random.Random, L: int) -> list[str]:
+    """Digit strings with exactly L significant digits: random, runs of 9s, a 5 (and
+    5 followed by a non-zero digit) at the positions where a double or a decimal context
+    would have to round."""
+    first = rng.choice("123456789")
+    rnd = first + "".join(rng.choice("0123456789") for _ in range(L - 1))
+    out = [rnd, "9" * L]
+    if L >= 2:
+        out.append(first + "9" * (L - 1))
+        out.append(rnd[:-1] + rng.choice("123456789"))  # last digit significant
+        k = rng.randrange(1, L)
+        out.append(rnd[:k] + "9" * (L - k - 1) + "5" if L - k - 1 >= 0 else rnd)
+    for pos in ROUNDING_POSITIONS:
+        if pos < L:
+            # digit number pos+1 is a 5: exactly half / just above half / just below half
+            head = rnd[:pos]
+            tail_len = L - pos - 1
+            out.append(head + "5" + "0" * (tail_len - 1) + ("1" if tail_len else ""))
+            out.append(head + "5" + "0" * tail_len)
+            if tail_len:
+                out.append(head + "4" + "9" * tail_len)
+                even = head[:-1] + rng.choice("02468") if len(head) > 1 else head
+                out.append(even + "5" + "0" * (tail_len - 1) + "5")
+    res = []
+    for m in out:
+        m = m[:L] if len(m) > L else m
+        if len(m) == L and m[0] != "0" and m not in res:
+            res.append(m)
+    return res
+
+
+def long_int_exp_texts(rng: random.Random, per_len: int, maxlen: int = 60) -> list[str]:
+    """Exponent-form integer literals whose mantissa has 1..maxlen significant digits."""
+    out: list[str] = []
+    for L in range(1, maxlen + 1):
+        ms = _mantissas(rng, L)
+        for j, m in enumerate(ms):
+            picks = [(EXP_MARKS[(L + j) % 4], rng.randint(0, 40))]
+            if j < per_len:
+                picks += [(mk, rng.choice([0, 1, rng.randint(0, 40), 40])) for mk in EXP_MARKS]
+            for mk, e in picks:
+                sign = "-" if rng.random() < 0.3 else ""
+                out.append(f"{sign}{m}{mk}{e}")
+        # plain digits of the same length, too
+        out.append(ms[0])
+        out.append("-" + ms[-1])
+    return out
+
+
+def _midpoint_texts(rng: random.Random, n: int) -> list[str]:
+    """Decimal expansions at / next to the exact midpoint of two adjacent doubles
+    (round-half-even must decide; the deciding digit lies far beyond 17 or 28 digits)."""
+    out: list[str] = []
+    ctx = decimal.Context(prec=2000)
+    for _ in range(n):
+        x = rng.choice([rng.uniform(0.001, 1000.0), rng.uniform(1e5, 1e15), rng.random(),
+                        float(rng.randrange(2**52, 2**53)), rng.uniform(1e-5, 1e-3)])
+        y = math.nextafter(x, math.inf)
+        mid = ctx.divide(ctx.add(Decimal(x), Decimal(y)), Decimal(2))
+        t = format(mid, "f")
+        if "." not in t:
+            t += ".0"
+        sign = "-" if rng.random() < 0.25 else ""
+        out.append(sign + t)  # exact tie
+        out.append(sign + t + "1")  # just above
+        d = t.rstrip("0")
+        if d[-1] not in ".0":
+            out.append(sign + d[:-1] + str(int(d[-1]) - 1) + "9")  # just below
+        # the same value in scientific spelling
+        ip, fp = t.split(".")
+        if len(ip) > 1:
+            out.append(f"{sign}{ip[0]}.{ip[1:]}{fp}{rng.choice('eE')}{rng.choice(['', '+'])}{len(ip) - 1}")
+        else:
+            out.append(f"{sign}{ip}{fp[:1]}.{fp[1:] or '0'}{rng.choice('eE')}-1")
+    return out
+
+
+def long_float_texts(rng: random.Random, per_len: int, maxlen: int = 60) -> list[str]:
+    out: list[str] = []
+    for L in range(2, maxlen + 1):
+        for j, m in enumerate(_mantissas(rng, L)):
+            if j >= per_len + 3:
+                break
+            k = rng.randint(1, L - 1)
+            t = f"{m[:k]}.{m[k:]}"
+            r = rng.random()
+            if r < 0.35:
+                t += f"{rng.choice('eE')}{rng.choice(['', '+', '-'])}{rng.randint(0, 40)}"
+            elif r < 0.5:
+                t = f"0.{'0' * rng.randint(0, 8)}{m}"
+            out.append(("-" if rng.random() < 0.3 else "") + t)
+        m = _mantissas(rng, L)[0]
+        out.append(f"{m}{rng.choice('eE')}-{rng.randint(0, 40)}")  # FLOAT by negative exponent
+    return out + _midpoint_texts(rng, 12 * per_len)
+
+
+LIMIT_SITES = ("output", "output-json", "assign", "filter-arg", "if-eq", "if-eq-right", "if-le",
+               "case-when", "case-subject", "liquid-echo")
+
+
+def _limit_probes(h: Harness) -> None:
+    """The library's integer digit limit (liquid2.limits.MAX_STR_INT): a literal clearly
+    within it is exact; beyond it the only acceptable failure is a LiquidError."""
+    from liquid2 import limits
+
+    ctx = h.ctx
+    lim = limits.MAX_STR_INT
+    if not lim:
+        ctx.note("MAX_STR_INT is 0 (unlimited): limit probes skipped")
+        return
+    rng = random.Random("limit")
+    digits = lambda n: rng.choice("123456789") + "".join(rng.choice("0123456789") for _ in range(n - 1))  # noqa: E731
+    probes: list[tuple[str, str]] = []  # (text, zone)
+    for total in (lim - 1, lim - 2, lim - 50, lim // 2):
+        probes.append((digits(total), "within"))
+        probes.append(("-" + digits(total - 1), "within"))
+        for mk in EXP_MARKS:
+            mlen = rng.choice([1, 2, 17, 29, 60])
+            probes.append((f"{digits(mlen)}{mk}{total - mlen}", "within"))
+        probes.append((f"-{digits(30)}e{total - 31}", "within"))
+    for total in (lim, lim + 1):
+        probes.append((digits(total), "edge"))
+        probes.append((f"{digits(3)}e{total - 3}", "edge"))
+        probes.append((f"-{digits(3)}E+{total - 3}", "edge"))
+    for total in (lim + 2, lim + 3, lim + 100, 2 * lim, 10 * lim):
+        probes.append((digits(total), "beyond"))
+        probes.append(("-" + digits(total), "beyond"))
+        for mk in EXP_MARKS:
+            probes.append((f"{digits(rng.choice([1, 5, 40]))}{mk}{total}", "beyond"))
+    probes += [("1e99999999", "beyond"), ("7E+123456789012345678901234567890", "beyond"),
+               ("1e" + "9" * 5000, "beyond")]
+    for text, zone in probes:
+        for name in LIMIT_SITES:
+            check_limit_probe(h, name, text, zone)
+
+
+def check_limit_probe(h: Harness, name: str, text: str, zone: str) -> None:
+    from liquid2 import limits
+
+    ctx = h.ctx
+    site = NUMSITE[name]
+    o, _info = eval_number(h, site, text)
+    ctx.ev()
+    ctx.count("number_evaluations")
+    ctx.count("limit_probes_" + zone)
+    refused = o.kind.startswith("liquid-error:")
+    if zone != "within" and refused:
+        ctx.count("limit_probes_refused_with_LiquidError")
+    if o.kind == "ok" or (zone != "within" and refused):
+        return
+    shape = "exp" if "e" in text.lower() else "plain"
+    key = f"int-limit:{zone}:{o.kind if o.kind != 'wrong' else 'wrong-value'}:{shape}"
+    short_text = text if len(text) < 80 else f"{text[:20]}...({len(text)} chars)...{text[-20:]}"
+    ctx.violation(key, f"site {name}: integer literal {short_text} ({zone} the digit limit "
+                       f"{limits.MAX_STR_INT}): {o.kind} {o.detail}",
+                  {"kind": "limit", "site": name, "text": text, "zone": zone,
+                   "outcome": o.kind, "detail": o.detail})
+
+
 def _numbers(h: Harness, spec: dict[str, Any]) -> None:
     rng = random.Random(f"{spec['seed']}:num:{spec['i']}")
     n = spec["count"]
     texts = int_texts(rng, n) + sci_texts(rng, n) + float_texts(rng, n)
+    per_len = 1 if spec["tier"] == "quick" else 6
+    lrng = random.Random(f"{spec['seed']}:longnum")  # same list in every shard; split by index
+    long_int = long_int_exp_texts(lrng, per_len)
+    long_float = long_float_texts(lrng, per_len)
+    for t in long_int + long_float:
+        h.ctx.mx("max:mantissa_digits", sum(c.isdigit() for c in t.lower().split("e")[0]))
+    h.ctx.counters["long_mantissa_literals"] = 0
+    texts += long_int + long_float
+    n_long = len(long_int) + len(long_float)
     for j, text in enumerate(texts):
         if j % spec["n"] != spec["i"]:
             continue
         for site in NUM_SITES:
             check_number(h, site, text)
         h.ctx.count("number_literals")
+        if j >= len(texts) - n_long:
+            h.ctx.count("long_mantissa_literals")
         h.ctx.check_deadline()
+    if spec["i"] == spec["n"] - 1:
+        _limit_probes(h)
     # small indexes through a bracketed path (the lexer converts these itself)
     if spec["i"] == 0:
         arr = list(range(100, 160))
@@ -1347,6 +1539,10 @@ def replay(wit: dict[str, Any], ctx: Ctx) -> None:
         print(f"  outcome {o.kind} rendered={o.out!r} decoded={o.observed!r} {o.detail}")
         if o.kind != "ok":
             check_json(h, wit["variant"], wit["value"])
+    elif kind == "limit":
+        print(f"replay C20 limit probe site={wit['site']} zone={wit['zone']} "
+              f"text={wit['text'][:40]}...({len(wit['text'])} chars)")
+        check_limit_probe(h, wit["site"], wit["text"], wit["zone"])
     elif kind == "index":
         k = wit["k"]
         o = h.render("<<{{ arr[%d] }}>>" % k, {}, {"arr": list(range(100, 160))})
